@@ -429,6 +429,8 @@ def asym_worker(job):
                 w.close()
         except (R.RefError, Livelock) as exc:
             viol.append(('peer-rejects', str(exc)))
+        except (asyncssh.Error, OSError) as exc:
+            viol.append(('handshake-failed', 'real %s: %r' % (role, exc)))
         acc.add(core.digest(('asym', cat, role, tuple(l_cs), tuple(l_sc))), transitions=1,
                 sample={'category': cat, 'real_role': role, 'c2s_list': l_cs, 's2c_list': l_sc} if len(l_cs) == 2 and len(l_sc) == 3 else None)
         for k, det in viol:
